@@ -668,7 +668,14 @@ class World:
             if not os.path.exists(p):
                 with h5py.File(p, 'w') as hf:
                     for name, rc in d['datasets']:
-                        hf.create_dataset(name, data=values.make_array(rc))
+                        arr = values.make_array(rc)
+                        kw = {}
+                        if d.get('h5_chunks') and arr.ndim and arr.shape[0]:
+                            # chunked storage layout (what compression / resizable data sets imply): k rows per storage chunk
+                            kw['chunks'] = (max(1, min(int(d['h5_chunks']), arr.shape[0])),) + tuple(arr.shape[1:])
+                            if d.get('h5_compress'):
+                                kw['compression'] = 'gzip'
+                        hf.create_dataset(name, data=arr, **kw)
                 if d.get('truncate'):
                     os.truncate(p, max(os.path.getsize(p) - int(d['truncate']), 0))
                 self.h5_files.append(p)
